@@ -12,9 +12,14 @@
    acknowledgement may only be created for a prefix the follower's log shares
    with that leader log and released once the durable log covers it, a leader
    commits only own-term entries acknowledged (released) by a quorum with its
-   own log counted by what is durable.  Whether the implementation's transitions
-   satisfy these guards is what the acceptor (P/LogAccept.v) checks on every
-   observed transition.  Executable definitions only; theorems in P/LogProofs.v. *)
+   own log counted by what is durable (recorded, in the ghost [acked] only, as an
+   implicit acknowledgement of the leader), and a log image becomes durable only if
+   none of its entries has a term above the durable term (the hard state of a Ready
+   is durable no later than its entries: without this guard state-machine safety is
+   false, P/LogSafety.v unguarded_fsync_unsafe).  Whether the implementation's
+   transitions satisfy these guards is what the acceptor (P/LogAccept.v) checks on
+   every observed transition.  Executable definitions only; theorems in
+   P/LogProofs.v (C05) and P/LogSafety.v (C01, C03, C04). *)
 From RV Require Import Base.Prelude M.Quorum P.Election.
 
 Local Open Scope N_scope.
@@ -186,7 +191,12 @@ Section Rules.
            && (k <=? length (l_log x))%nat && (l_commit x <? k)%nat
            && (term_at (l_log x) k =? t)
            && quorum inc out supporters
-        then Some (add_cpt (set_ln s c (mkLN (l_log x) (l_dlog x) (l_imgs x) k (l_acks x))) t k)
+        then
+          let s1 := set_ln s c (mkLN (l_log x) (l_dlog x) (l_imgs x) k (l_acks x)) in
+          (* ghost only: the leader's own support is recorded as an implicit acknowledgement *)
+          let s2 := if is_prefix (firstn k (l_log x)) (l_dlog x) && (acked s c t <? k)%nat
+                    then set_acked s1 c t k else s1 in
+          Some (add_cpt s2 t k)
         else None
     | LCommitF n k =>
         let x := ln s n in
@@ -205,7 +215,10 @@ Section Rules.
         let x := ln s n in
         match l_imgs x with
         | img :: rest =>
+            (* the durable log is never ahead of the durable term: the hard state of a
+               Ready is durable no later than its entries *)
             if p_up (nodes (el s) n)
+               && forallb (fun e => eterm e <=? p_dterm (nodes (el s) n)) img
             then Some (set_ln s n (mkLN (l_log x) img rest (l_commit x) (l_acks x)))
             else None
         | [] => None
